@@ -181,6 +181,9 @@ def build(cfg, src):
             items.append(Item(False, plain_rec(False, 0x16, cke), kind="CKE"))
             items.append(Item(False, ccs, kind="CCS"))
             items.append(finished(False))
+            if cfg.get("session_ticket"):
+                # RFC 5077 3.3: NewSessionTicket in the clear, after the client's Finished and before the server's ChangeCipherSpec
+                items.append(Item(True, plain_rec(True, 0x16, T.hs(4, T.cat(b"\x00\x00\x0e\x10", T.u16(3), src.bytes("ticket", 3)))), kind="NewSessionTicket"))
             items.append(Item(True, ccs, kind="CCS"))
             items.append(finished(True))
     # ---- application data history
